@@ -164,7 +164,7 @@ CHECKS.update({
                   "Delegations/Pools classes and judged by Trace_FimDelegation",
         text="TLC checks that regrouping pool definitions by node and building pools back is the identity and that encoding is "
              "canonical; every generated case is executed (encode, decode, regroup, validate) and compared with the model incl. "
-             "the rejection of inconsistent pools.",
+             "the rejection of inconsistent pools; pools and own delegations written onto an aggregate model and read back.",
         note="Delegation details are opaque tokens; up to 3 pools x 3 nodes.",
         design="DESIGN.md §3 C12"),
     "C13": dict(
@@ -173,7 +173,8 @@ CHECKS.update({
                   "generate_adms, projected models judged clause by clause by Trace_FimADM",
         text="For each aggregate model of the family x delegation layout TLC computes the expected per-delegation models; the real "
              "ADMs must contain exactly the delegated elements plus their context (interface keeps owner chain), carry only their "
-             "own delegation, keep ids, and together cover the aggregate; the original model must be unchanged.",
+             "own delegation, keep ids, and together cover the aggregate; the original model must be unchanged; re-keying once, "
+             "twice and to the same key; partition again after the model has grown (one aggregate object).",
         note="Family: <=4 nodes with components/services/interfaces/links, 2 delegation ids, default + explicit delegations.",
         design="DESIGN.md §3 C13"),
     "C14": dict(
@@ -243,7 +244,8 @@ CHECKS.update({
              "constructed over a recording driver that answers with canned results (3 personas to drive both sides of the result "
              "handling); ~150 operation instances (every operation, swept over class labels, relations and special property names) x 3 personas x 3 value sets (benign; quotes, backslashes, braces, dollars; newlines, keywords, "
              "trailing backslash). TLC decides for every captured statement: literals terminated, brackets balanced, no template "
-             "left-over, no comment opener, every $parameter supplied, every referenced variable bound; and that the token shape "
+             "left-over, no comment opener, no dangling separator, every $parameter supplied, every referenced variable bound, "
+             "literals that are themselves statements (APOC inner queries) decoded and judged like statements; and that the token shape "
              "of every statement of an operation instance is the same for all value sets (values reach the driver as parameters "
              "or inside correctly escaped literals).",
         note="Cypher is scanned, not parsed: the bound-variable check covers x.Prop and f(x) references only; statements from the "
